@@ -25,7 +25,7 @@ from ..ref import pattern as RP
 PID = "C08"
 RULE = (
     "patterns: every (class spec) x (0, 1 or 2 field specs) from the generated field-spec families, well-formed only; nodes: a "
-    "fixed pool of 33 nodes; every (pattern, node) pair is matched.  history: all ordered pairs (thorough: plus triples over 12) "
+    "fixed pool of 35 nodes; every (pattern, node) pair is matched.  history: all ordered pairs (thorough: plus triples over 12) "
     "of a core pattern set compiled with the cache kept / cleared between / cleared after, then matched; MultiPatternMatcher over "
     "every ordered list of <= 3 core patterns, default and explicit rule order.  states = distinct pattern texts; transitions = "
     "match calls compared with the reference; non-trivial = patterns that match at least one pool node and fail at least one"
@@ -79,7 +79,7 @@ def pool():
            PA("p", o=PA("ab"), items=(PA("a"), PA("ab"))),
            PA("a", n="a", o=PA("q", items=(PA("a"),)), items=(PA("q", items=(PA("a"),)),)),   # nested parents
            PB("p", items=(PA("x", o=PA("a", items=(PC("a"),))),)),
-           PA("ab", n="ab"), PC("ab"), PA("a b"), PA("a  b"), PC("a  b"), PA("7x"), PA("\\d1"), PC("a\\"), PA("a\\b"),
+           PA("ab", n="ab"), PC("ab"), PA("a b"), PA("a  b"), PC("a  b"), PA("7x"), PA('a"'), PA('"'), PA("\\d1"), PC("a\\"), PA("a\\b"),
            PA("w", items=tuple(PA(str(i)) for i in range(10))), PA("w", items=tuple(PA(str(i)) for i in range(11))),
            PA("w", items=tuple(PB(str(i)) if i != 10 else PC("c") for i in range(11))), PA("w", items=tuple(PA(str(i)) for i in range(12)))]
     return out
@@ -101,7 +101,7 @@ def _skey(n):
 
 
 # ---- pattern space -------------------------------------------------------------------------------------
-RES = ["a", "a$", "b|ab", ".*", "", "a b", "a  b$", "\\d", "\\\\d", "a\\\\"]  # incl. \d (a digit), \\d (backslash + d), a\\ (ends in an escaped backslash)
+RES = ["a", "a$", "b|ab", ".*", "", "a b", "a  b$", "\\d", "\\\\d", "a\\\\", 'a\\"', '\\"']  # incl. \d (a digit), \\d (backslash + d), a\\ (ends in an escaped backslash)
 CLASSES = ["*", ("PA",), ("PB",), ("PC",), ("PA", "PC"), ("PC", "PB")]
 
 
